@@ -113,10 +113,23 @@ func (f *FileImage) descriptorFromRaw(rd *rawDescriptor) Descriptor {
 	}
 }
 
+// isEmpty reports whether f contains no data objects. The descriptor table is authoritative: the
+// free descriptor count in the global header can be stale in an image left behind by an
+// interrupted modification.
+func (f *FileImage) isEmpty() bool {
+	for i := range f.rds {
+		if f.rds[i].Used {
+			return false
+		}
+	}
+
+	return true
+}
+
 // GetDescriptors returns a slice of in-use descriptors for which all selector funcs return true.
 // If the image contains no data objects, an error wrapping ErrNoObjects is returned.
 func (f *FileImage) GetDescriptors(fns ...DescriptorSelectorFunc) ([]Descriptor, error) {
-	if f.DescriptorsFree() == f.DescriptorsTotal() {
+	if f.isEmpty() {
 		return nil, fmt.Errorf("%w", ErrNoObjects)
 	}
 
@@ -159,7 +172,7 @@ func (f *FileImage) getDescriptor(fns ...DescriptorSelectorFunc) (*rawDescriptor
 // error wrapping ErrObjectNotFound is returned. If multiple descriptors are selected by fns, an
 // error wrapping ErrMultipleObjectsFound is returned.
 func (f *FileImage) GetDescriptor(fns ...DescriptorSelectorFunc) (Descriptor, error) {
-	if f.DescriptorsFree() == f.DescriptorsTotal() {
+	if f.isEmpty() {
 		return Descriptor{}, fmt.Errorf("%w", ErrNoObjects)
 	}
 
